@@ -118,7 +118,9 @@ def dict_ctor(ctx, acls, args, kwargs):
     k = ctx.choose(1 + len(CTOR_ERRORS), "ctor-outcome")
     if k > 0:
         from pyvc.engine import PyRaise
-        raise PyRaise(SExc(CTOR_ERRORS[k - 1], (ctx.fresh_str("msg"),)))
+        exc = SExc(CTOR_ERRORS[k - 1], (ctx.fresh_str("msg"),))
+        exc.extra.setdefault("via", set()).add("%s.__init__" % acls.key["shape_cls"].__name__)
+        raise PyRaise(exc)
     hv, vt, ct = acls.key["terms"]
     o = SObj(acls.key["shape_cls"], has_dict=True)
     fl = DFLAGS(hv, vt, ct)
